@@ -25,7 +25,10 @@ R = Registry(
         "restores it, and InstanceState restores nothing after the manager callable ran; every ext.serializer field "
         "used as a lookup key by the reader is written from the attribute that keys that collection "
         "(MetaData.tables/Table.key, Table.c/Column.key, Mapper.attrs/MapperProperty.key) and encoded fields are "
-        "decoded by the inverse pair."
+        "decoded by the inverse pair; every persistent id is written under a positive isinstance test of the pickled "
+        "object and returned, every reader branch is an equality test on the tag and returns the resolved object; "
+        "every literal key written by a __getstate__ is looked at by the __setstate__ of the same class (or the state "
+        "is handed over as a whole), and every __setstate__ uses its state parameter."
     ),
     not_decided="equality of the unpickled objects, pickle protocol specifics, user-defined classes.",
 )
@@ -785,6 +788,8 @@ def r5(ctx):
             if len(fl) >= 2 and len(fl[0]) == 1 and isinstance(fl[0][0], str):
                 written[fl[0][0]] = fl[1:]
     ctx.require(len(written) >= 3, f"{w.key}: persistent-id expressions not recognised")
+    gw = ctx.cfg(w)
+    gw_assign_nodes = [n for n in gw.nodes if n.kind == "stmt" and isinstance(n.stmt, ast.Assign)]
     # reader: the payload variable and the branches
     payload = None
     for n in walk_local(rd.node):
@@ -794,10 +799,16 @@ def r5(ctx):
     ctx.require(payload is not None, f"{rd.key}: `type_, args = m.group(1, 2)` not recognised")
     pm = rd.module.parents()
     for n in ast.walk(rd.node):
-        if not (isinstance(n, ast.If) and isinstance(n.test, ast.Compare) and len(n.test.ops) == 1 and isinstance(n.test.ops[0], ast.Eq)
-                and const_str(n.test.comparators[0]) is not None):
+        if not isinstance(n, ast.If):
             continue
-        tag = const_str(n.test.comparators[0])
+        tt = n.test
+        while isinstance(tt, ast.UnaryOp) and isinstance(tt.op, ast.Not):
+            tt = tt.operand
+        if not (isinstance(tt, ast.Compare) and len(tt.ops) == 1
+                and isinstance(tt.ops[0], (ast.Eq, ast.NotEq))      # a wrong operator / negation is C51-R6's finding
+                and const_str(tt.comparators[0]) is not None):
+            continue
+        tag = const_str(tt.comparators[0])
         if tag not in written:
             continue
         fvars = {payload: 0}
@@ -832,6 +843,24 @@ def r5(ctx):
                                 and call_name(wexpr) == tform[0] and len(wexpr.args) == len(tform[1]) \
                                 and all(isinstance(a, ast.Attribute) and a.attr == nm for a, nm in zip(wexpr.args, tform[1])):
                             good = True
+                        if good and coll == "tables" and isinstance(wexpr, ast.Attribute):
+                            # the key attribute was derived for class Table: its owner must be known to be one
+                            tcls = ctx.index.cls("sql/schema.py::Table")
+                            owner = unparse(wexpr.value)
+                            anode = [a for a in gw_assign_nodes if any(x is wf[0] for x in ast.walk(a.stmt))]
+                            atoms = set(guard_atoms(gw.edge_guards(anode[0].id))) if anode else set()
+                            known = False
+                            for a, pol in atoms:
+                                mm = re.fullmatch(rf"isinstance\({re.escape(owner)}, ([\w.]+)\)", a)
+                                if mm and pol:
+                                    k = ctx.index.resolve(w.module, mm.group(1))
+                                    if k is tcls or (hasattr(k, "key") and k in ctx.index.subclasses(tcls)):
+                                        known = True
+                            if anode and not known:
+                                ctx.violation(key, f"`{unparse(wexpr)}` is written for a {cname} lookup, but `{owner}` is not known to be a "
+                                                   f"Table there (no dominating positive isinstance({owner}, Table)): columns of other "
+                                                   f"selectables would get an id that resolves to nothing or to a homonymous table", w.loc)
+                                continue
                         ctx.check(good, key,
                                   f"persistent_id writes `{unparse(wexpr) if wexpr is not None else wf}` but persistent_load looks the "
                                   f"field up with `{unparse(x)}`, and {cname} files its members under .{'/.'.join(sorted(attrs))}: "
@@ -841,6 +870,233 @@ def r5(ctx):
                 ctx.check((enc is not None) == decoded, f"{SER}::tag:{tag}:field{i}:codec",
                           f"writer {'pickles+b64-encodes' if enc is not None else 'writes the plain text of'} the field, reader "
                           f"{'decodes+unpickles' if decoded else 'uses the raw text'}", "b64encode(pickle.dumps(..)) <-> pickle.loads(b64decode(..))", w.loc)
+
+
+
+# ------------------------------------------------------------------------------------ C51-R6
+@R.rule("C51-R6", floor=15, template="T-FLOW",
+        desc="ext.serializer dispatch: every persistent id is written under a positive isinstance(<the pickled object>, K) "
+             "outcome (and under the positive membership test of every literal key it subscripts) and is the value "
+             "persistent_id returns; every reader branch of a written tag is an `==` test of the tag variable and returns "
+             "a non-constant object on every path; the reader dispatches only on a successful match with the tag taken "
+             "from the regex group that holds it")
+def r6(ctx):
+    SER = "ext/serializer.py"
+    w = ctx.func(f"{SER}::Serializer.persistent_id")
+    rd = ctx.func(f"{SER}::Deserializer.persistent_load")
+    gw, gr = ctx.cfg(w), ctx.cfg(rd)
+    wparams = [a.arg for a in w.node.args.args]
+    ctx.require(len(wparams) == 2, f"{w.key}: expected persistent_id(self, obj)")
+    obj = wparams[1]
+    # ---- writer
+    assigns = {}
+    for n in gw.nodes:
+        st = n.stmt
+        if n.kind == "stmt" and isinstance(st, ast.Assign) and isinstance(st.targets[0], ast.Name):
+            fl = _split_fields(st.value)
+            if len(fl) >= 2 and len(fl[0]) == 1 and isinstance(fl[0][0], str):
+                assigns[fl[0][0]] = n
+    ctx.require(len(assigns) >= 3, f"{w.key}: persistent-id assignments not recognised")
+    rets = [n for n in gw.nodes if n.kind == "stmt" and isinstance(n.stmt, ast.Return)]
+    for tag, n in sorted(assigns.items()):
+        idvar = n.stmt.targets[0].id
+        atoms = set(guard_atoms(gw.edge_guards(n.id)))
+        probs = []
+        pos = [a for a, p in atoms if p and re.fullmatch(rf"isinstance\({re.escape(obj)}, [\w.]+\)", a)]
+        if not pos:
+            probs.append(f"the `{tag}:` id is not written under a positive isinstance({obj}, <class>) outcome "
+                         f"(dominating outcomes: {sorted(a + ('' if p else ' is false') for a, p in atoms)[:4]}): objects of other "
+                         f"kinds would be replaced by this id")
+        for x in ast.walk(n.stmt.value):
+            if isinstance(x, ast.Subscript) and const_str(x.slice) is not None:
+                memb = f"{const_str(x.slice)!r} in {unparse(x.value)}"
+                tested = any(isinstance(c, ast.Compare) and len(c.ops) == 1 and isinstance(c.ops[0], (ast.In, ast.NotIn))
+                             and const_str(c.left) == const_str(x.slice) and unparse(c.comparators[0]) == unparse(x.value)
+                             for c in ast.walk(w.node))
+                if tested and (memb, True) not in atoms:
+                    probs.append(f"`{unparse(x)}` is read where `{memb}` is not known to hold")
+        after = gw.reachable([n.id], edge_ok=no_exc, include_starts=False)
+        bad_ret = [r for r in rets if r.id in after and not (isinstance(r.stmt.value, ast.Name) and r.stmt.value.id == idvar)]
+        if bad_ret or not [r for r in rets if r.id in after]:
+            probs.append(f"the id computed for `{tag}:` is not what persistent_id returns "
+                         f"(`{unparse(bad_ret[0].stmt) if bad_ret else 'no return'}`): the object is pickled by value")
+        ctx.check(not probs, f"{SER}::tag:{tag}:writer-guard", "; ".join(probs), f"under {pos[:1]}, returned", w.loc)
+    # ---- reader dispatch
+    grp = None
+    for n in gr.nodes:
+        st = n.stmt
+        if n.kind == "stmt" and isinstance(st, ast.Assign) and isinstance(st.targets[0], ast.Tuple) and isinstance(st.value, ast.Call) \
+                and isinstance(st.value.func, ast.Attribute) and st.value.func.attr == "group" and isinstance(st.value.func.value, ast.Name):
+            grp = n
+    ctx.require(grp is not None, f"{rd.key}: `type_, args = m.group(1, 2)` not recognised")
+    mvar = grp.stmt.value.func.value.id
+    targets = [e.id if isinstance(e, ast.Name) else None for e in grp.stmt.targets[0].elts]
+    try:
+        gidx = [ast.literal_eval(a) for a in grp.stmt.value.args]
+    except Exception:
+        gidx = []
+    ctx.require(len(gidx) == len(targets), f"{rd.key}: group indexes not literal")
+    m = ctx.index.module(SER)
+    pat = None
+    for vals in m.assigns.values():
+        for v in vals:
+            if isinstance(v, ast.Call) and call_name(v) == "re.compile" and v.args:
+                try:
+                    pat = ast.literal_eval(v.args[0])
+                except Exception:
+                    pass
+    ctx.require(isinstance(pat, str), f"{SER}: reader regex literal not found")
+    rx = re.compile(pat)
+    class _T:     # an if-test on the tag variable, `not` unwrapped
+        def __init__(self, node, cmp_, neg):
+            self.node, self.test, self.body = node, cmp_, node.body
+            self.equality = isinstance(cmp_.ops[0], ast.Eq) != neg
+    tests = []
+    for n in ast.walk(rd.node):
+        if not isinstance(n, ast.If):
+            continue
+        t, neg = n.test, False
+        while isinstance(t, ast.UnaryOp) and isinstance(t.op, ast.Not):
+            t, neg = t.operand, not neg
+        if isinstance(t, ast.Compare) and len(t.ops) == 1 and isinstance(t.ops[0], (ast.Eq, ast.NotEq)) \
+                and isinstance(t.left, ast.Name) and const_str(t.comparators[0]) is not None:
+            tests.append(_T(n, t, neg))
+    tagvars = {n.test.left.id for n in tests}
+    probs = []
+    if len(tagvars) != 1:
+        probs.append(f"tag tests compare different variables {sorted(tagvars)}")
+    else:
+        tv = next(iter(tagvars))
+        sample = sorted(assigns)[0]
+        mm = rx.match(sample + ":a:b")
+        if tv not in targets:
+            probs.append(f"`{tv}` is not bound from {mvar}.group(..)")
+        elif not mm or mm.group(gidx[targets.index(tv)]) != sample:
+            probs.append(f"`{tv}` is bound to regex group {gidx[targets.index(tv)]}, which is not the group holding the tag")
+    for n in tests:
+        if not n.equality:
+            probs.append(f"`{unparse(n.node.test)}` is not an equality test: the branch runs for every OTHER tag")
+    if not ({(mvar, True), (f"{mvar} is None", False)} & set(guard_atoms(gr.edge_guards(grp.id)))):
+        probs.append(f"the tag is dispatched although `{mvar}` (the regex match) is not known to be a match")
+    mdefs = [n.value for n in walk_local(rd.node) if isinstance(n, ast.Assign) and any(_is_name(t, mvar) for t in n.targets)]
+    if not mdefs or not all(isinstance(v, ast.Call) and isinstance(v.func, ast.Attribute) and v.func.attr in ("match", "fullmatch") for v in mdefs):
+        probs.append(f"`{mvar}` is not the result of matching the id against the tag regex")
+    ctx.check(not probs, f"{SER}::reader:dispatch", "; ".join(probs), f"if {mvar}: {targets} = {mvar}.group{tuple(gidx)}", rd.loc)
+    by_tag = {}
+    for n in tests:
+        by_tag.setdefault(const_str(n.test.comparators[0]), []).append(n)
+    for tag in sorted(assigns):
+        key = f"{SER}::tag:{tag}:reader-returns"
+        brs = by_tag.get(tag, [])
+        if not brs:
+            ctx.ok(key, "no reader branch (reported by C51-R2)", nontrivial=False)
+            continue
+        probs = []
+        for br in brs:
+            if not br.equality:
+                probs.append(f"`{unparse(br.node.test)}` is not an equality test: the branch runs for every OTHER tag")
+                continue
+            last = br.body[-1]
+            if not isinstance(last, (ast.Return, ast.Raise)):
+                probs.append("the branch can fall through without returning the resolved object")
+            for st in br.body:
+                for x in walk_local(st) if not isinstance(st, ast.Return) else []:
+                    if isinstance(x, ast.Return) and (x.value is None or isinstance(x.value, ast.Constant)):
+                        probs.append(f"`{unparse(x)}` replaces the persistent object by a constant")
+                if isinstance(st, ast.Return) and (st.value is None or isinstance(st.value, ast.Constant)):
+                    probs.append(f"`{unparse(st)}` replaces the persistent object by a constant")
+        ctx.check(not probs, key, "; ".join(probs), "== test, returns the resolved object", rd.loc)
+
+
+
+# ------------------------------------------------------------------------------------ C51-R7
+def _reader_consumption(f):
+    """(literal keys of the state the reader looks at, consumes-the-state-as-a-whole?, state parameter used at all?)"""
+    fn = f.node
+    sp = _state_param(fn)
+    if sp is None:
+        return set(), False, False
+    required, optional, _ = _reader_keys(f)
+    keys = set(required) | set(optional)
+    whole = used = False
+    pm = f.module.parents()
+    for n in ast.walk(fn):
+        if isinstance(n, ast.Name) and n.id == sp and isinstance(n.ctx, ast.Load):
+            used = True
+            par = pm.get(n)
+            # handed over as a whole to a method of the object itself: self.m(state), self.__dict__.update(state),
+            # super().__setstate__(state), self[:] = state
+            if isinstance(par, ast.Call) and n in par.args:
+                root = par.func
+                while isinstance(root, (ast.Attribute, ast.Call)):
+                    root = root.value if isinstance(root, ast.Attribute) else root.func
+                if isinstance(root, ast.Name) and root.id in (fn.args.args[0].arg, "super", "vars"):
+                    whole = True
+            elif isinstance(par, ast.Assign) and par.value is n:
+                whole = True
+        # state[k] for k iterating over a literal tuple
+        if isinstance(n, (ast.ListComp, ast.GeneratorExp, ast.SetComp, ast.DictComp)):
+            for gen in n.generators:
+                if isinstance(gen.target, ast.Name) and isinstance(gen.iter, (ast.Tuple, ast.List, ast.Set)) \
+                        and all(const_str(e) is not None for e in gen.iter.elts):
+                    if any(isinstance(x, ast.Subscript) and _is_name(x.value, sp) and _is_name(x.slice, gen.target.id) for x in ast.walk(n)):
+                        keys.update(const_str(e) for e in gen.iter.elts)
+        if isinstance(n, ast.For) and isinstance(n.target, ast.Name) and isinstance(n.iter, (ast.Tuple, ast.List, ast.Set)) \
+                and all(const_str(e) is not None for e in n.iter.elts):
+            if any(isinstance(x, ast.Subscript) and _is_name(x.value, sp) and _is_name(x.slice, n.target.id) for x in ast.walk(n)):
+                keys.update(const_str(e) for e in n.iter.elts)
+    return keys, whole, used
+
+
+def _constant_valued_keys(g):
+    """keys a __getstate__ writes with a value that mentions no variable at all (format markers such as
+    'version': 2 carry no object state; a reader may ignore them)"""
+    out, stateful = set(), set()
+    for n in walk_local(g.node):
+        pairs = []
+        if isinstance(n, ast.Dict):
+            pairs = [(const_str(k), v) for k, v in zip(n.keys, n.values) if k is not None]
+        elif isinstance(n, ast.Assign) and len(n.targets) == 1 and isinstance(n.targets[0], ast.Subscript):
+            pairs = [(const_str(n.targets[0].slice), n.value)]
+        for k, v in pairs:
+            if k is None:
+                continue
+            if any(isinstance(x, ast.Name) for x in ast.walk(v)):
+                stateful.add(k)
+            else:
+                out.add(k)
+    return out - stateful
+
+
+@R.rule("C51-R7", floor=24, template="T-TABLE",
+        desc="nothing that was pickled is dropped: every literal key written by __getstate__ is looked at by the "
+             "__setstate__ of the same class, unless the reader hands the state as a whole to a method of the object "
+             "(__dict__.update(state), self._shallow_from_dict(state), super().__setstate__(state)); every "
+             "__setstate__ uses its state parameter")
+def r7(ctx):
+    for cls in sorted(ctx.index.all_classes(), key=lambda c: c.key):
+        s = cls.methods.get("__setstate__")
+        if s is None or s.type_only:
+            continue
+        ctx.functions_analysed.add(s.key)
+        key = f"{s.key}:consumes-state"
+        keys, whole, used = _reader_consumption(s)
+        if not used:
+            ctx.violation(key, "the state parameter is never used: the pickled payload is dropped", s.loc)
+            continue
+        g = cls.methods.get("__getstate__")
+        if g is None or g.type_only:
+            ctx.ok(key, "state parameter used; writer not in this class", nontrivial=False)
+            continue
+        uncond, allk, is_open, opaque_w = _writer_keys(ctx, g)
+        if opaque_w or whole:
+            ctx.ok(key, "state consumed as a whole" if whole else "opaque payload, state parameter used", nontrivial=whole)
+            continue
+        dropped = sorted(allk - keys - _constant_valued_keys(g))
+        ctx.check(not dropped, key,
+                  f"__getstate__ writes {dropped} but __setstate__ never looks at {'them' if len(dropped) > 1 else 'it'}: the pickled "
+                  f"value is dropped and the unpickled object keeps the class default / lacks the attribute",
+                  f"{len(allk)} written key(s) all consumed", s.loc)
 
 
 # ------------------------------------------------------------------------------------ self-test
@@ -940,3 +1196,48 @@ R.mutant("benign-table-id-concatenated", "ext/serializer.py",
          sub("                id_ = f\"table:{obj.key}\"\n", "                id_ = \"table:\" + obj.key\n"), None)
 R.mutant("benign-table-id-get-table-key", "ext/serializer.py",
          sub("                id_ = f\"table:{obj.key}\"\n", "                id_ = \"table:\" + _get_table_key(obj.name, obj.schema)\n"), None)
+# --- C51-R6 (survivors of the generic mutation sweep over ext/serializer.py)
+R.mutant("serializer-mapper-guard-negated", "ext/serializer.py",
+         sub("        if isinstance(obj, Mapper):\n", "        if not isinstance(obj, Mapper):\n"), "C51-R6")
+R.mutant("serializer-column-guard-loses-column-test", "ext/serializer.py",
+         sub("        elif isinstance(obj, Column) and isinstance(obj.table, Table):\n", "        elif isinstance(obj.table, Table):\n"), "C51-R6")
+R.mutant("serializer-parententity-test-negated", "ext/serializer.py",
+         sub("            if \"parententity\" in obj._annotations:\n", "            if \"parententity\" not in obj._annotations:\n"), "C51-R6")
+R.mutant("serializer-returns-none", "ext/serializer.py",
+         sub("            return None\n        return id_\n", "            return None\n        return None\n"), "C51-R6")
+R.mutant("deserializer-attribute-test-negated", "ext/serializer.py",
+         sub("            if type_ == \"attribute\":\n", "            if type_ != \"attribute\":\n"), "C51-R6")
+R.mutant("deserializer-table-test-negated", "ext/serializer.py",
+         sub("            elif type_ == \"table\":\n", "            elif type_ != \"table\":\n"), "C51-R6")
+R.mutant("deserializer-mapper-returns-none", "ext/serializer.py",
+         sub("                return class_mapper(cls)\n            elif type_ == \"mapper_selectable\":\n",
+             "                class_mapper(cls)\n                return None\n            elif type_ == \"mapper_selectable\":\n"), "C51-R6")
+R.mutant("deserializer-groups-swapped", "ext/serializer.py",
+         sub("            type_, args = m.group(1, 2)\n", "            type_, args = m.group(2, 1)\n"), "C51-R6")
+R.mutant("deserializer-match-test-negated", "ext/serializer.py",
+         sub("        if not m:\n            return None\n        else:\n", "        if m:\n            return None\n        else:\n"), "C51-R6")
+R.mutant("benign-deserializer-early-return", "ext/serializer.py",
+         sub("        if not m:\n            return None\n        else:\n            type_, args = m.group(1, 2)\n",
+             "        if m is None:\n            return None\n        if True:\n            type_, args = m.group(1, 2)\n"), None)
+R.mutant("benign-serializer-guard-tuple-class", "ext/serializer.py",
+         sub("        elif isinstance(obj, Session):\n", "        elif isinstance(obj, Session) and obj is not None:\n"), None)
+# --- C51-R7 (survivors of the generic mutation sweep over all __setstate__ methods: a restore that disappears)
+R.mutant("metadata-setstate-drops-tables", "sql/schema.py",
+         sub("        self.tables = state[\"tables\"]\n", ""), "C51-R7")
+R.mutant("instancestate-setstate-drops-parents", "orm/state.py",
+         sub("        self.parents = state_dict.get(\"parents\", {})\n", ""), "C51-R7")
+R.mutant("instancestate-setstate-drops-key-from-bulk-restore", "orm/state.py",
+         sub("                for k in (\"key\", \"load_options\")\n", "                for k in (\"load_options\",)\n"), "C51-R7")
+R.mutant("collectionadapter-setstate-drops-empty", "orm/collections.py",
+         sub("        self.empty = d.get(\"empty\", False)\n", "        self.empty = False\n"), "C51-R7")
+R.mutant("mutabledict-setstate-ignores-state", "ext/mutable.py",
+         sub("    ) -> None:\n        self.update(state)\n", "    ) -> None:\n        self.update({})\n"), "C51-R7")
+R.mutant("benign-metadata-setstate-through-local", "sql/schema.py",
+         sub("        self.tables = state[\"tables\"]\n", "        tables = state[\"tables\"]\n        self.tables = tables\n"), None)
+R.mutant("benign-instancestate-bulk-restore-as-loop", "orm/state.py",
+         sub("        self.__dict__.update(\n            [\n                (k, state_dict[k])\n                for k in (\"key\", \"load_options\")\n                if k in state_dict\n            ]\n        )\n",
+             "        for k in (\"key\", \"load_options\"):\n            if k in state_dict:\n                self.__dict__[k] = state_dict[k]\n"), None)
+R.mutant("serializer-column-guard-loses-table-test", "ext/serializer.py",
+         sub("        elif isinstance(obj, Column) and isinstance(obj.table, Table):\n", "        elif isinstance(obj, Column):\n"), "C51-R5")
+R.mutant("deserializer-mapperprop-test-not-wrapped", "ext/serializer.py",
+         sub("            elif type_ == \"mapperprop\":\n", "            elif not type_ == \"mapperprop\":\n"), "C51-R6")
